@@ -44,6 +44,17 @@ add(
     "Tolerance 1e-9 absolute on probabilities; unreachable blocks (perm=0) are excluded and counted.",
 )
 
+add(
+    "C20",
+    "property-based testing (Hypothesis): metamorphic relations (translation, image shift, rotation, velocity reversal, box form)",
+    "Distance, Distancevel, Dihedral, Puckering, Velocity, Position are evaluated on generated configurations and on their images under "
+    "rigid translation, per-atom box-vector shifts, proper rotations and velocity reversal (directly and through "
+    "EngineBase.calculate_order with vel_rev from arrays and from the configuration file); values are also compared with closed forms; "
+    "3- vs 9-component boxes; minimum-image bound; bitwise no-mutation of the system. Sampled.",
+    "Orthogonal boxes; separations within 1e-6 L of exactly L/2 excluded from invariance clauses (rounding tie); degenerate "
+    "(collinear/planar) geometries avoided by construction.",
+)
+
 NOT_YET = "check not built yet in this session (design exists in DESIGN.md §4); will be claimed once its check is registered"
 
 
